@@ -208,6 +208,14 @@ func printerCarve(fs *mon.Findings, f syntax.Node, o POpts) string {
 			}
 		case *syntax.CoprocClause:
 			hit("C01-coproc")
+		case *syntax.FuncDecl:
+			if x.Name == nil || len(x.Names) > 0 {
+				hit("C01-zsh-anonymous-or-multiname-function")
+			}
+		case *syntax.CaseItem:
+			if len(x.Stmts) > 0 && hasHeredoc(x.Stmts[len(x.Stmts)-1]) {
+				hit("C01-heredoc-last-in-case-item")
+			}
 		case *syntax.ParamExp:
 			if x.Repl != nil && x.Repl.Orig == nil {
 				hit("C01-zsh-empty-replace")
